@@ -10,7 +10,10 @@
 (* the verdict) must be invariant under it.                                *)
 (*                                                                         *)
 (* Choices:                                                                *)
-(*   ctx      "none" | "prefix" (ex:p) | "vocab" (@vocab, bare terms)      *)
+(*   ctx      "none" | "prefix" (ex:p) | "vocab" (@vocab, bare terms) |    *)
+(*            "prefixRef": the prefix context kept in a separate document, *)
+(*            named by reference; that document is rewritten between uses  *)
+(*            (other term names), so it must be read when it is used       *)
 (*   base     ids absolute | relative to @base                             *)
 (*   embed    children written inside their parent | listed flat           *)
 (*   wrapper  {"@graph": [...]} | top-level array                          *)
@@ -24,7 +27,7 @@
 (***************************************************************************)
 EXTENDS Naturals, Sequences, FiniteSets, TLC
 
-Choices == [ctx : {"none", "prefix", "vocab"}, base : BOOLEAN, embed : BOOLEAN, wrapper : {"graph", "array"},
+Choices == [ctx : {"none", "prefix", "vocab", "prefixRef"}, base : BOOLEAN, embed : BOOLEAN, wrapper : {"graph", "array"},
             order : BOOLEAN, keyOrder : BOOLEAN, arrays : BOOLEAN, typeArr : BOOLEAN, repeat : BOOLEAN,
             litObj : BOOLEAN, split : BOOLEAN]
 Canonical == [ctx |-> "none", base |-> FALSE, embed |-> FALSE, wrapper |-> "array", order |-> FALSE, keyOrder |-> FALSE,
@@ -39,7 +42,8 @@ SetToSeq(S) == LET RECURSIVE go(_, _)
 Rev(s) == [i \in 1..Len(s) |-> s[Len(s) + 1 - i]]
 
 IdForm(n, c) == IF c.base THEN <<"rel", n>> ELSE <<"abs", n>>
-KeyForm(p, c) == CASE c.ctx = "none" -> <<"full", p>> [] c.ctx = "prefix" -> <<"compact", p>> [] c.ctx = "vocab" -> <<"term", p>>
+KeyForm(p, c) == CASE c.ctx = "none" -> <<"full", p>> [] c.ctx \in {"prefix", "prefixRef"} -> <<"compact", p>>
+                   [] c.ctx = "vocab" -> <<"term", p>>
 
 RECURSIVE Obj(_, _, _, _)
 \* the object written for node n; `part` selects which half of the properties goes into it (0 = all, 1, 2)
@@ -77,7 +81,7 @@ Serialise(G, c) ==
 \* ---- reading a document back ---------------------------------------------
 ExpandId(f, doc) == IF f[1] = "rel" THEN (IF doc.base THEN f[2] ELSE <<"unresolved", f[2]>>) ELSE f[2]
 ExpandKey(f, doc) == CASE f[1] = "full" -> f[2]
-                       [] f[1] = "compact" -> IF doc.ctx = "prefix" THEN f[2] ELSE <<"unresolved", f[2]>>
+                       [] f[1] = "compact" -> IF doc.ctx \in {"prefix", "prefixRef"} THEN f[2] ELSE <<"unresolved", f[2]>>
                        [] f[1] = "term" -> IF doc.ctx = "vocab" THEN f[2] ELSE <<"dropped", f[2]>>
 
 RECURSIVE ObjsIn(_)
